@@ -417,7 +417,7 @@ pub fn run_wrathhdr(args: &Args) -> (u64, u64) {
     // exhaustive size sweep (thorough): all 2^23 sizes, logged as block digests that TLC recomputes
     if thorough || args.extra.iter().any(|x| x == "sizesweep") {
         let blocks: Vec<u32> = if thorough { (0..2048).collect() } else { vec![0, 7, 8, 1023, 1024, 2047] };
-        let ops: Vec<u16> = if thorough { vec![0x1EE, 0xFFFF] } else { vec![0x1EE] };
+        let ops: Vec<u16> = vec![0x1EE];
         c.reset("wrathhdr-sizesweep");
         let Some((clw, svw)) = pair(&mut c, "wrath", "SWEEP", key, None, 5) else { return c.tr.finish() };
         let (State::Whole(Cr::WC(clw)), State::Whole(Cr::WS(svw))) = (clw.st, svw.st) else { unreachable!() };
